@@ -10,6 +10,7 @@ pub mod c04;
 pub mod c09;
 pub mod c10;
 pub mod c11;
+pub mod c12;
 pub mod c16;
 pub mod c17;
 pub mod c10_conn;
@@ -31,6 +32,7 @@ pub const REGISTRY: &[Entry] = &[
     Entry { id: "C10", run: c10::run, replay: c10::replay },
     Entry { id: "SMOKE", run: smoke::run, replay: smoke::replay },
     Entry { id: "C11", run: c11::run, replay: c11::replay },
+    Entry { id: "C12", run: c12::run, replay: c12::replay },
     Entry { id: "C16", run: c16::run, replay: c16::replay },
     Entry { id: "C17", run: c17::run, replay: c17::replay },
     Entry { id: "C18", run: c18::run, replay: c18::replay },
